@@ -11,13 +11,21 @@ class C05(ProgCheck):
     prop = "C05"
     flag = "c05"
     level = "exploration"
-    flavours = ["ser", "ser-asan", "par"]
+    flavours = ["ser", "ser-asan", "par", "par-asan"]
     assumptions = [
+        "deferred-observation arm: the same history is run with every object observed at birth and with nothing observed until "
+        "the end; unobserved copies must equal their sources, and every CrossSection must end up identical in both passes "
+        "(for Manifolds different forcing histories only promise the same solid, so they are compared within one pass only)",
         "observation = every public getter (Status, counts, Genus, OriginalID, BoundingBox, Epsilon, Tolerance, full GetMeshGL64; "
         "ToPolygons/Area/Bounds/Tolerance for CrossSections), hashed field-wise",
         "pools <= 12 Manifolds and 8 CrossSections, histories <= 40 steps",
     ]
+    MIX_DEFER = {"circle": 3, "square": 2, "xpoly": 2, "xscale": 5, "xtrans": 4, "xrot": 4, "xmirror": 2, "xcopy": 5, "xassign": 5, "xsettol": 4,
+                 "xsimplify": 2, "xoffset": 2, "xadd": 2, "xsub": 2, "xint": 1, "xhull": 1, "xwarp": 1, "xdecompose": 1,
+                 "cube": 2, "sphere": 1, "rot": 3, "trans": 2, "mirror": 3, "scale": 2, "copy": 4, "assign": 4, "setprops": 2, "calcnorm": 1,
+                 "add": 2, "sub": 1, "extrude": 1, "slice": 1, "settol": 1, "asorig": 1}
     arms = [
+        ("deferred_observation", 25, {"mix": MIX_DEFER, "nops": (6, 30), "flavours": ["ser", "ser-asan"], "kind": "c05defer"}),
         ("history", 60, {"mix": gen.MIX_HISTORY, "nops": (10, 40), "flavours": ["ser", "ser", "ser-asan", "par"], "thr": [64, 16]}),
         ("history2d", 15, {"mix": dict(gen.MIX_2D, xcopy=3, xassign=3, xforce=3, xscale=4, xsettol=1), "nops": (8, 30),
                             "flavours": ["ser", "ser-asan"]}),
